@@ -27,7 +27,8 @@ theorem ddr3_mr2_mr1_roundtrip :
       ddr3CWL (ddr3Mr2 cwl rw) = cwl ∧ ddr3RttWr (ddr3Mr2 cwl rw) = rw ∧ ddr3Mr2 cwl rw < 2 ^ 11) ∧
     (∀ ron ∈ List.range 2, ∀ rn ∈ List.range 6, ∀ td ∈ List.range 2,
       ddr3Ron (ddr3Mr1 ron rn td) = ron ∧ ddr3RttNom (ddr3Mr1 ron rn td) = rn ∧ ddr3Tdqs (ddr3Mr1 ron rn td) = td ∧
-      bitsAt (ddr3Mr1 ron rn td) 7 1 = 0 ∧ bitsAt (ddr3Mr1 ron rn td) 0 1 = 0) := by
+      bitsAt (ddr3Mr1 ron rn td) 7 1 = 0 ∧ bitsAt (ddr3Mr1 ron rn td) 0 1 = 0 ∧
+      ddr3Special (ddr3Mr1 ron rn td) = 0) := by
   decide +kernel
 
 /-- **DDR4 MR0** likewise (CL code split over A12,A6:A4,A2; WR code over A13,A11:A9). -/
@@ -42,7 +43,8 @@ theorem ddr4_mr2_mr1_mr3_mr6_roundtrip :
       ∃ m, ddr4Mr2 cwl rw = some m ∧ ddr4CWL m = some cwl ∧ ddr4RttWr m = rw ∧ m < 2 ^ 12) ∧
     (∀ ron ∈ List.range 2, ∀ rn ∈ List.range 8, ∀ td ∈ List.range 2,
       ddr4DllEnable (ddr4Mr1 1 ron rn td) = 1 ∧ ddr4Ron (ddr4Mr1 1 ron rn td) = ron ∧
-      ddr4RttNom (ddr4Mr1 1 ron rn td) = rn ∧ ddr4Tdqs (ddr4Mr1 1 ron rn td) = td) ∧
+      ddr4RttNom (ddr4Mr1 1 ron rn td) = rn ∧ ddr4Tdqs (ddr4Mr1 1 ron rn td) = td ∧
+      ddr4Special (ddr4Mr1 1 ron rn td) = 0) ∧
     (∀ f ∈ List.range 3, ddr4FineRefresh (ddr4Mr3 f) = f) ∧
     (∀ t ∈ keys ddr4_tccd_to_mr6, ∃ m, ddr4Mr6 t = some m ∧ ddr4TccdL m = t) := by
   decide +kernel
